@@ -49,6 +49,7 @@ R.contract(
     prop="C12",
     args={"self": Control},
     ensures={"def": "iff(result, self.stop_event.flag or self.has_reached_the_failure_limit)"},
+    inline=True,
 )
 R.contract(
     EC + ".stop",
@@ -62,6 +63,7 @@ R.contract(
     prop="C12",
     args={"self": Control},
     ensures={"def": "iff(result, self.stop_event.flag)"},
+    inline=True,
 )
 
 # Lemma L12a: by induction over count_failure calls (invariant above + counted_once):
